@@ -29,6 +29,7 @@ func checkC30(r *Run) {
 	r.Pass("C30-R3", "the amount-handling packages use no floating point", "", fmt.Sprintf("%d functions scanned", nf))
 	_, ctl := floatUses(r.P, "daemon/pex.Peer.CanTry")
 	r.Check("C30-R3", "positive control: the scanner sees the floating-point back-off computation of pex.Peer.CanTry", "", len(ctl) > 0, "")
+	ruleUntransformedText(r, "C30-R5", 12, "util/droplet.FromString")
 	// R4: the JSON wrapper hands exactly the decoded JSON string to FromString and stores its result
 	const uj = "util/http.Coins.UnmarshalJSON"
 	r.RequireOnSuccess("C30-R4", uj, req("the body is a JSON string", "ok(json.Unmarshal($1, local:string))"), req("parsed by droplet.FromString", "ok(util/droplet.FromString(local:string))"))
